@@ -268,6 +268,50 @@ theorem get_exact (sumOf : Nat → Nat) (minSize : Nat) (size : Int) (ops : List
       exact ⟨rfl, by omega⟩
   · cases hhit
 
+/-! ## the lookup reads the elem after the shard lock is released -/
+
+theorem heap_run_stable (ops : List HOp) : ∀ (h : ElemHeap) (a : Nat), a < h.next →
+    (h.run false ops).cell a = h.cell a ∧ h.next ≤ (h.run false ops).next := by
+  induction ops with
+  | nil => intro h a _; exact ⟨rfl, Nat.le_refl _⟩
+  | cons op ops ih =>
+    intro h a ha
+    cases op with
+    | store v e =>
+      have hstep : ElemHeap.step false h (.store v e) = { h.write h.next ⟨v, e⟩ with next := h.next + 1 } := by
+        simp [ElemHeap.step]
+      have := ih (ElemHeap.step false h (.store v e)) a (by rw [hstep]; simp [ElemHeap.write]; omega)
+      simp only [ElemHeap.run, List.foldl] at this ⊢
+      refine ⟨this.1.trans ?_, Nat.le_trans ?_ this.2⟩
+      · rw [hstep]; simp [ElemHeap.write]; omega
+      · rw [hstep]; simp [ElemHeap.write]
+    | sweep b =>
+      have hstep : ElemHeap.step false h (.sweep b) = h := by simp [ElemHeap.step]
+      simp only [ElemHeap.run, List.foldl, hstep]
+      exact ih h a ha
+
+/-- whether the code writes to an elem after its creation (e.g. reuses swept elems), as read from the source -/
+def recycles : Bool := !(Gen.Facts.c11ElemsWrittenOnlyAtCreation == some true)
+
+/-- **Whatever other goroutines store or sweep between a lookup's fetch of the elem
+(under the shard lock) and its read of the elem's fields (after the unlock), the
+lookup returns what it would have returned had it read the fields at the fetch:**
+the atomic `get` of `Cache.step` is the lookup of the code. Holds for the elem
+discipline read from the source; `by decide` fails if elems are written after creation. -/
+theorem lookup_reads_what_it_fetched (h : ElemHeap) (a : Nat) (ha : a < h.next) (between : List HOp) (now : Nat) :
+    readFetched recycles h a between now = readFetched recycles h a [] now := by
+  have hr : recycles = false := by decide
+  rw [hr]
+  simp only [readFetched, (heap_run_stable between h a ha).1]
+  rfl
+
+/-- with reuse of swept elems the same lookup returns another key's value: key A's elem (value 43690, expired at 10)
+is fetched, swept and refilled by the store of another key (value 48059) before it is read at time 50 -/
+theorem reuse_of_swept_elems_is_refuted :
+    readFetched true ⟨fun _ => ⟨43690, 10⟩, 1, []⟩ 0 [.sweep 0, .store 48059 1000] 50 = .hit 48059 1000 ∧
+    readFetched false ⟨fun _ => ⟨43690, 10⟩, 1, []⟩ 0 [.sweep 0, .store 48059 1000] 50 = .miss ∧
+    readFetched true ⟨fun _ => ⟨43690, 100⟩, 1, []⟩ 0 [.sweep 0] 50 = .hit 0 100 := by decide
+
 /-! ## tie to the source -/
 
 theorem facts_guard :
@@ -275,7 +319,8 @@ theorem facts_guard :
     Gen.Facts.c11PerShardIsSizeDivShards = some true ∧ Gen.Facts.c11ShardByHashMod = some true ∧
     Gen.Facts.c11LockDiscipline = some true ∧ Gen.Facts.c11MapAccessSites = some 15 ∧
     Gen.Facts.c11SetEvictsBeforeInsert = some true ∧ Gen.Facts.c11GetHidesExpired = some true ∧
-    Gen.Facts.c11StoreSkipsExpired = some true ∧ Gen.Facts.c11GcRemovesExpired = some true := by decide
+    Gen.Facts.c11StoreSkipsExpired = some true ∧ Gen.Facts.c11GcRemovesExpired = some true ∧
+    Gen.Facts.c11ElemsWrittenOnlyAtCreation = some true := by decide
 
 /-! ## non-vacuity -/
 
